@@ -8,6 +8,7 @@ use crate::common::{Proof, ValuelessProof};
 use crate::verif::util::*;
 use crate::{DataBlock, DataHash, DataSeek, DataUpgrade, Node, RequestBlock, RequestSeek, RequestUpgrade};
 use ed25519_dalek::SigningKey;
+use futures::future::Either;
 
 pub(crate) fn signing_key() -> SigningKey {
     SigningKey::from_bytes(&[7u8; 32])
@@ -281,4 +282,397 @@ fn c09_req_block_vs_upgrade_target() {
     kani::cover!(true, "reached end");
     std::mem::forget(r);
     std::mem::forget(t);
+}
+
+// ------------------------------------------------------------------------------------------ C03
+
+/// Writer tree of N blocks with *symbolic contents*: block i has (i % 2) + 1 bytes.  Built by the
+/// real append / hash_and_sign / commit path.  Returns the tree and the blocks.
+pub(crate) fn writer_tree_sym<const N: usize>() -> (MerkleTree, Vec<Vec<u8>>) {
+    let mut t = empty_tree();
+    let sk = signing_key();
+    let mut blocks: Vec<Vec<u8>> = Vec::with_capacity(N);
+    let mut i = 0;
+    while i < N {
+        let mut d = Vec::with_capacity(2);
+        d.push(kani::any::<u8>());
+        if i % 2 == 1 {
+            d.push(kani::any::<u8>());
+        }
+        let mut cs = t.changeset();
+        cs.append(&d);
+        cs.hash_and_sign(&sk);
+        t.commit(cs).unwrap();
+        blocks.push(d);
+        i += 1;
+    }
+    (t, blocks)
+}
+
+fn prefix_sum(blocks: &[Vec<u8>], i: usize) -> u64 {
+    let mut s = 0u64;
+    let mut k = 0;
+    while k < i {
+        s += blocks[k].len() as u64;
+        k += 1;
+    }
+    s
+}
+
+fn unwrap_right<L, R>(e: Either<L, R>) -> R {
+    match e {
+        Either::Right(r) => r,
+        Either::Left(_) => panic!("storage instruction requested although every node is in memory"),
+    }
+}
+
+/// One honest replication round on `replica` (whose length is `from`): request block `index` with
+/// the replica's own missing-node count, plus an upgrade to `to` if `to > from`.  Asserts the proof
+/// is served, accepted, commitable; that the block's byte offset is the writer's prefix sum; and
+/// that after commit the replica reports the writer's length / byte length at `to`.
+fn honest_round(writer: &mut MerkleTree, replica: &mut MerkleTree, blocks: &[Vec<u8>], index: usize, to: usize) {
+    let from = replica.length;
+    let nodes = unwrap_right(replica.missing_nodes(2 * index as u64, None).unwrap());
+    let block = RequestBlock { index: index as u64, nodes };
+    let upgrade = RequestUpgrade { start: from, length: to as u64 - from };
+    let up = if (to as u64) > from { Some(&upgrade) } else { None };
+    let vp = unwrap_right(writer.create_valueless_proof(Some(&block), None, None, up, None).unwrap());
+    let proof = vp.into_proof(Some(blocks[index].clone()));
+    let pk = signing_key().verifying_key();
+    let cs = unwrap_right(replica.verify_proof(&proof, &pk, None).unwrap());
+    assert!(replica.commitable(&cs));
+    let off = unwrap_right(replica.byte_offset_in_changeset(index as u64, &cs, None).unwrap());
+    assert!(off == prefix_sum(blocks, index));
+    replica.commit(cs).unwrap();
+    assert!(replica.length == to as u64);
+    assert!(replica.byte_length == prefix_sum(blocks, to));
+}
+
+fn c03_scenario<const N: usize>(first: usize, mid: usize, second: usize) {
+    let (mut writer, blocks) = writer_tree_sym::<N>();
+    let mut replica = empty_tree();
+    // round 1: block `first` with an upgrade 0 -> mid; round 2: block `second` with mid -> N
+    honest_round(&mut writer, &mut replica, &blocks, first, mid);
+    honest_round(&mut writer, &mut replica, &blocks, second, N);
+    // every node the replica holds is the writer's node
+    let k: u64 = kani::any();
+    kani::assume(k < 2 * N as u64);
+    if let Some(rn) = replica.unflushed.get(k) {
+        let wn = writer.unflushed.get(k).unwrap();
+        assert!(node_eq(rn, wn));
+    }
+    kani::cover!(true, "reached end");
+    std::mem::forget(writer);
+    std::mem::forget(replica);
+}
+
+macro_rules! c03 {
+    ($name:ident, $n:expr, $first:expr, $mid:expr, $second:expr) => {
+        #[kani::proof]
+        #[kani::stub(std::fmt::format, stub_format)]
+        fn $name() {
+            c03_scenario::<$n>($first, $mid, $second);
+        }
+    };
+}
+c03!(c03_n2_full_then_block, 2, 0, 2, 1);
+c03!(c03_n2_partial_upgrade, 2, 0, 1, 1);
+c03!(c03_n3_partial_upgrade, 3, 1, 2, 2);
+c03!(c03_n4_far_block, 4, 3, 4, 0);
+
+// --------------------------------------------------------------------------- C03/C04 micro steps
+
+/// verify_tree on a block proof of fixed shape (block 0, sibling leaf 2): the recomputed root is
+/// node 1 = parent(leaf(value), sibling) with the summed length, and the changeset lists
+/// leaf, sibling, parent in that order.  Block bytes, sibling hash and sibling length symbolic.
+#[kani::proof]
+#[kani::stub(std::fmt::format, stub_format)]
+fn c03_verify_tree_block_n2() {
+    let t = empty_tree();
+    let mut cs = t.changeset();
+    let value: Vec<u8> = vec![kani::any(), kani::any()];
+    let sh: [u8; 32] = kani::any();
+    let sl: u64 = kani::any();
+    kani::assume(sl < (1 << 40));
+    let sibling = Node::new(2, sh.to_vec(), sl);
+    let block = DataBlock { index: 0, value: value.clone(), nodes: vec![sibling.clone()] };
+    let root = verify_tree(Some(&block), None, None, &mut cs).unwrap().unwrap();
+    let leaf = Node::new(0, Hash::data(&value).as_bytes().to_vec(), 2);
+    let expect = Node::new(1, Hash::parent(&leaf, &sibling).as_bytes().to_vec(), 2 + sl);
+    assert!(node_eq(&root, &expect));
+    assert!(cs.nodes.len() == 3);
+    assert!(node_eq(&cs.nodes[0], &leaf) && node_eq(&cs.nodes[1], &sibling) && node_eq(&cs.nodes[2], &expect));
+    kani::cover!(true, "reached end");
+    std::mem::forget(cs);
+}
+
+fn sym_leaf_root() -> (Node, Vec<u8>) {
+    let value: Vec<u8> = vec![kani::any(), kani::any()];
+    let leaf = Node::new(0, Hash::data(&value).as_bytes().to_vec(), 2);
+    (leaf, value)
+}
+
+/// The writer's signature over a one-root tree of length 1 (what hash_and_sign produces).
+fn sign_roots(roots: &[Node], length: u64, fork: u64, sk: &SigningKey) -> [u8; 64] {
+    let hash = Hash::tree(roots);
+    let signable = crate::crypto::signable_tree(hash.as_bytes(), length, fork);
+    crate::crypto::sign(sk, &signable).to_bytes()
+}
+
+/// C03 step: an honest full upgrade 0 -> 1 (one root, the writer's signature) is accepted by an
+/// empty replica and yields the writer's length / byte length / root.
+#[kani::proof]
+#[kani::stub(std::fmt::format, stub_format)]
+fn c03_verify_upgrade_honest() {
+    let t = empty_tree();
+    let mut cs = t.changeset();
+    let (leaf, _value) = sym_leaf_root();
+    let sk = signing_key();
+    let sig = sign_roots(&[leaf.clone()], 1, 0, &sk);
+    let upgrade = DataUpgrade { start: 0, length: 1, nodes: vec![leaf.clone()], additional_nodes: vec![], signature: sig.to_vec() };
+    let r = verify_upgrade(0, &upgrade, None, &sk.verifying_key(), &mut cs);
+    assert!(r.is_ok());
+    assert!(cs.length == 1 && cs.byte_length == 2 && cs.upgraded);
+    assert!(cs.roots.len() == 1 && node_eq(&cs.roots[0], &leaf));
+    assert!(cs.signature.is_some());
+    assert!(t.commitable(&cs));
+    kani::cover!(true, "reached end");
+    std::mem::forget(cs);
+}
+
+/// C04 step: the same upgrade with exactly one altered field is refused: one signature byte
+/// (symbolic position, symbolic different value), a signature made with another key, a signature
+/// made for another length or fork, or one altered byte of the root hash.
+#[kani::proof]
+#[kani::stub(std::fmt::format, stub_format)]
+fn c04_verify_upgrade_altered() {
+    let t = empty_tree();
+    let mut cs = t.changeset();
+    let (leaf, _value) = sym_leaf_root();
+    let sk = signing_key();
+    let mut sig = sign_roots(&[leaf.clone()], 1, 0, &sk);
+    let mut node = leaf.clone();
+    let mut fork = 0u64;
+    let which: u8 = kani::any();
+    kani::assume(which < 5);
+    let pos: usize = kani::any();
+    let val: u8 = kani::any();
+    match which {
+        0 => {
+            kani::assume(pos < 64 && val != sig[pos]);
+            sig[pos] = val;
+        }
+        1 => {
+            let other = SigningKey::from_bytes(&[8u8; 32]);
+            sig = sign_roots(&[leaf.clone()], 1, 0, &other);
+        }
+        2 => sig = sign_roots(&[leaf.clone()], 2, 0, &sk),
+        3 => fork = 1,
+        _ => {
+            kani::assume(pos < 32 && val != node.hash[pos]);
+            node.hash[pos] = val;
+        }
+    }
+    let upgrade = DataUpgrade { start: 0, length: 1, nodes: vec![node], additional_nodes: vec![], signature: sig.to_vec() };
+    let r = verify_upgrade(fork, &upgrade, None, &sk.verifying_key(), &mut cs);
+    assert!(r.is_err());
+    kani::cover!(which == 4, "altered root hash");
+    kani::cover!(true, "reached end");
+    std::mem::forget(r);
+    std::mem::forget(cs);
+}
+
+/// Replica that already holds the 2-block tree's root (node 1) and nothing else; the writer's
+/// blocks are `value` (block 0) and a sibling leaf 2 with symbolic hash/length.
+fn replica_with_root(value: &[u8], sibling: &Node) -> (MerkleTree, Node) {
+    let leaf = Node::new(0, Hash::data(value).as_bytes().to_vec(), value.len() as u64);
+    let root = Node::new(1, Hash::parent(&leaf, sibling).as_bytes().to_vec(), leaf.length + sibling.length);
+    let mut t = empty_tree();
+    t.unflushed.insert(1, root.clone());
+    t.roots = vec![root.clone()];
+    t.length = 2;
+    t.byte_length = root.length;
+    (t, root)
+}
+
+/// C03 step: a block proof without upgrade whose recomputed root equals the root the replica
+/// already holds is accepted, is commitable, and places block 0 at byte offset 0.
+#[kani::proof]
+#[kani::stub(std::fmt::format, stub_format)]
+fn c03_verify_proof_block_against_stored_root() {
+    let value: Vec<u8> = vec![kani::any(), kani::any()];
+    let sh: [u8; 32] = kani::any();
+    let sl: u64 = kani::any();
+    kani::assume(sl < (1 << 40));
+    let sibling = Node::new(2, sh.to_vec(), sl);
+    let (mut replica, _root) = replica_with_root(&value, &sibling);
+    let proof = Proof { fork: 0, block: Some(DataBlock { index: 0, value: value.clone(), nodes: vec![sibling.clone()] }), hash: None, seek: None, upgrade: None };
+    let pk = signing_key().verifying_key();
+    let cs = unwrap_right(replica.verify_proof(&proof, &pk, None).unwrap());
+    assert!(replica.commitable(&cs));
+    assert!(!cs.upgraded);
+    assert!(cs.length == 2 && cs.nodes.len() == 3);
+    kani::cover!(true, "reached end");
+    std::mem::forget(cs);
+    std::mem::forget(replica);
+}
+
+/// C04 step: the same proof with one altered block byte or one altered sibling-hash byte (symbolic
+/// position and value) is refused, and the replica is unchanged.
+#[kani::proof]
+#[kani::stub(std::fmt::format, stub_format)]
+fn c04_verify_proof_block_altered() {
+    let value: Vec<u8> = vec![kani::any(), kani::any()];
+    let sh: [u8; 32] = kani::any();
+    let sl: u64 = kani::any();
+    kani::assume(sl < (1 << 40));
+    let sibling = Node::new(2, sh.to_vec(), sl);
+    let (mut replica, root) = replica_with_root(&value, &sibling);
+    let mut bad_value = value.clone();
+    let mut bad_sibling = sibling.clone();
+    let in_value: bool = kani::any();
+    let pos: usize = kani::any();
+    let val: u8 = kani::any();
+    if in_value {
+        kani::assume(pos < 2 && val != bad_value[pos]);
+        bad_value[pos] = val;
+    } else {
+        kani::assume(pos < 32 && val != bad_sibling.hash[pos]);
+        bad_sibling.hash[pos] = val;
+    }
+    let proof = Proof { fork: 0, block: Some(DataBlock { index: 0, value: bad_value, nodes: vec![bad_sibling] }), hash: None, seek: None, upgrade: None };
+    let pk = signing_key().verifying_key();
+    let r = replica.verify_proof(&proof, &pk, None);
+    assert!(r.is_err());
+    assert!(replica.length == 2 && replica.roots.len() == 1 && node_eq(&replica.roots[0], &root));
+    kani::cover!(in_value, "altered block byte");
+    kani::cover!(!in_value, "altered sibling hash byte");
+    kani::cover!(true, "reached end");
+    std::mem::forget(r);
+    std::mem::forget(replica);
+}
+
+// ------------------------------------------------------------------------------------------ C05
+
+/// Tree shape: appending N one-byte blocks (symbolic contents) through the real
+/// MerkleTreeChangeset::append / append_root yields exactly the nodes the flat in-order scheme
+/// prescribes: leaf i at index 2i = H_leaf(block i), every full parent = H_parent(children) with
+/// the summed size, roots = the binary decomposition of N, and hash_and_sign signs
+/// signable(H_tree(roots), N, fork) with the writer's key.  The reference is written recursively
+/// over (depth, offset) coordinates (ref_tree), not with the flat_tree iterator.
+fn ref_node(depth: u32, offset: u64, blocks: &[u8]) -> Node {
+    let idx = crate::verif::ref_tree::index(depth, offset);
+    if depth == 0 {
+        let d = [blocks[offset as usize]];
+        Node::new(idx, Hash::data(&d).as_bytes().to_vec(), 1)
+    } else {
+        let l = ref_node(depth - 1, 2 * offset, blocks);
+        let r = ref_node(depth - 1, 2 * offset + 1, blocks);
+        Node::new(idx, Hash::parent(&l, &r).as_bytes().to_vec(), l.length + r.length)
+    }
+}
+
+fn tree_shape<const N: usize>() {
+    let t = empty_tree();
+    let mut cs = t.changeset();
+    let mut blocks = [0u8; N];
+    let mut i = 0;
+    while i < N {
+        blocks[i] = kani::any();
+        let len = cs.append(&[blocks[i]]);
+        assert!(len == 1);
+        i += 1;
+    }
+    assert!(cs.length == N as u64 && cs.byte_length == N as u64 && cs.batch_length == N as u64 && cs.upgraded);
+    // roots: binary decomposition of N, left to right
+    let mut want = [0u64; 64];
+    let nroots = crate::verif::ref_tree::roots(N as u64, &mut want);
+    assert!(cs.roots.len() == nroots);
+    let mut r = 0;
+    while r < nroots {
+        let idx = want[r];
+        let d = crate::verif::ref_tree::depth(idx);
+        let expect = ref_node(d, crate::verif::ref_tree::offset(idx), &blocks);
+        assert!(node_eq(&cs.roots[r], &expect));
+        r += 1;
+    }
+    // every node the changeset will persist is the reference node of its index
+    let k: usize = kani::any();
+    kani::assume(k < cs.nodes.len());
+    let idx = cs.nodes[k].index;
+    let d = crate::verif::ref_tree::depth(idx);
+    assert!(d <= 2 && crate::verif::ref_tree::right_span(idx) < 2 * N as u64);
+    let expect = ref_node(d, crate::verif::ref_tree::offset(idx), &blocks);
+    assert!(node_eq(&cs.nodes[k], &expect));
+    // number of persisted nodes = leaves + full parents
+    let mut parents = 0;
+    let mut m = N;
+    while m > 1 {
+        m /= 2;
+        parents += m;
+    }
+    assert!(cs.nodes.len() == N + parents);
+    // signature over signable(tree hash, length, fork)
+    let sk = signing_key();
+    cs.hash_and_sign(&sk);
+    let sig = sign_roots(&cs.roots, N as u64, 0, &sk);
+    assert!(cs.signature.unwrap().to_bytes() == sig);
+    assert!(cs.hash.as_ref().unwrap()[..] == Hash::tree(&cs.roots).as_bytes()[..]);
+    kani::cover!(true, "reached end");
+    std::mem::forget(cs);
+}
+
+/// Explicit small cases (no symbolic node position, no recursion): the persisted node list and the
+/// root list written out by hand for N = 2 and N = 3.
+fn leaf_of(i: u64, b: u8) -> Node {
+    Node::new(2 * i, Hash::data(&[b]).as_bytes().to_vec(), 1)
+}
+fn parent_of(index: u64, l: &Node, r: &Node) -> Node {
+    Node::new(index, Hash::parent(l, r).as_bytes().to_vec(), l.length + r.length)
+}
+
+#[kani::proof]
+#[kani::stub(std::fmt::format, stub_format)]
+fn c05_tree_shape_n2() {
+    let t = empty_tree();
+    let mut cs = t.changeset();
+    let (b0, b1): (u8, u8) = (kani::any(), kani::any());
+    cs.append(&[b0]);
+    cs.append(&[b1]);
+    let (l0, l2) = (leaf_of(0, b0), leaf_of(1, b1));
+    let p1 = parent_of(1, &l0, &l2);
+    assert!(cs.length == 2 && cs.byte_length == 2 && cs.batch_length == 2);
+    assert!(cs.nodes.len() == 3 && cs.roots.len() == 1);
+    assert!(node_eq(&cs.nodes[0], &l0) && node_eq(&cs.nodes[1], &l2) && node_eq(&cs.nodes[2], &p1));
+    assert!(node_eq(&cs.roots[0], &p1));
+    let sk = signing_key();
+    cs.hash_and_sign(&sk);
+    assert!(cs.signature.unwrap().to_bytes() == sign_roots(&[p1], 2, 0, &sk));
+    kani::cover!(true, "reached end");
+    std::mem::forget(cs);
+}
+
+#[kani::proof]
+#[kani::stub(std::fmt::format, stub_format)]
+fn c05_tree_shape_n3() {
+    let t = empty_tree();
+    let mut cs = t.changeset();
+    let (b0, b1, b2): (u8, u8, u8) = (kani::any(), kani::any(), kani::any());
+    cs.append(&[b0]);
+    cs.append(&[b1]);
+    cs.append(&[b2]);
+    let (l0, l2, l4) = (leaf_of(0, b0), leaf_of(1, b1), leaf_of(2, b2));
+    let p1 = parent_of(1, &l0, &l2);
+    assert!(cs.length == 3 && cs.byte_length == 3);
+    assert!(cs.nodes.len() == 4 && cs.roots.len() == 2);
+    assert!(node_eq(&cs.nodes[0], &l0) && node_eq(&cs.nodes[1], &l2) && node_eq(&cs.nodes[2], &p1) && node_eq(&cs.nodes[3], &l4));
+    assert!(node_eq(&cs.roots[0], &p1) && node_eq(&cs.roots[1], &l4));
+    kani::cover!(true, "reached end");
+    std::mem::forget(cs);
+}
+
+#[kani::proof]
+#[kani::stub(std::fmt::format, stub_format)]
+fn c05_tree_shape_n4() {
+    tree_shape::<4>();
 }
